@@ -85,14 +85,17 @@ class _CodeValidator(ast.NodeVisitor):
         node,
         permissions.CodePermission.CONDITION,
         # Match is not supported until Python 3.10.
-        (ast.If, getattr(ast, 'Match', None)),
+        # A conditional expression (`a if c else b`) is a condition too.
+        (ast.If, ast.IfExp, getattr(ast, 'Match', None)),
         'Condition is not allowed.',
     )
 
     self.verify(
         node,
         permissions.CodePermission.LOOP,
-        (ast.For, ast.While, ast.AsyncFor, ast.AsyncWith),
+        # Comprehensions and generator expressions are loops.
+        (ast.For, ast.While, ast.AsyncFor, ast.AsyncWith,
+         ast.ListComp, ast.SetComp, ast.DictComp, ast.GeneratorExp),
         'Loop is not allowed.',
     )
 
